@@ -12,6 +12,11 @@ fn text_pstr(heap: &Heap, s: PStr) -> Document {
   Document::non_static_str(String::from(s.as_str(heap)))
 }
 
+/// The parser stores a string literal with `\"` unescaped to `"`; printing has to write the escape back.
+fn escape_quotes(source: &str) -> String {
+  source.replace('"', "\\\"")
+}
+
 fn parenthesis_surrounded_doc(doc: Document) -> Document {
   Document::no_space_bracket("(", doc, ")")
 }
@@ -578,9 +583,11 @@ fn create_doc_without_preceding_comment(
     expr::E::Literal(_, Literal::Bool(false)) => Document::Text("false"),
     expr::E::Literal(_, Literal::Bool(true)) => Document::Text("true"),
     expr::E::Literal(_, Literal::Int(i)) => Document::non_static_str(i.to_string()),
-    expr::E::Literal(_, Literal::String(s)) => {
-      Document::concat(vec![Document::Text("\""), text_pstr(heap, *s), Document::Text("\"")])
-    }
+    expr::E::Literal(_, Literal::String(s)) => Document::concat(vec![
+      Document::Text("\""),
+      Document::non_static_str(escape_quotes(s.as_str(heap))),
+      Document::Text("\""),
+    ]),
     expr::E::LocalId(_, id) | expr::E::ClassId(_, _, id) => text_pstr(heap, id.name),
     expr::E::Tuple(_, e) => create_doc_for_parenthesized_expression_list(heap, comment_store, e),
     expr::E::FieldAccess(_) | expr::E::MethodAccess(_) | expr::E::Call(_) => {
